@@ -8,6 +8,9 @@ import (
 )
 
 func (r *Repo) Store(_ context.Context, tx model.Transaction) error {
+	r.m.Lock()
+	defer r.m.Unlock()
+
 	_, ok := r.storage.Load(tx.Id)
 	if ok {
 		return fs_db.ErrTxAlreadyExists
